@@ -129,7 +129,7 @@ pub fn gen_c01(tier: &str, r: u64, ex: u64, rng: &mut Rng) -> Value {
             set_flav(p, f);
             if rng.chance(1, 3) {
                 // the destination exists already and is longer than the value
-                steps.push(json!({"k":"env","act":"write_file","path":p["to"].clone(),"hex":"ee".repeat((len as usize + 10).min(5000))}));
+                steps.push(json!({"k":"env","act":"write_file","path":p["to"].clone(),"hex":"ee".repeat(if rng.chance(1, 2) { (len as usize + 10).min(5000) } else { (len as usize).min(5000) })}));
             }
         }
         steps.extend(pre.clone());
@@ -178,7 +178,9 @@ pub fn gen_c01(tier: &str, r: u64, ex: u64, rng: &mut Rng) -> Value {
     // an undamaged sibling copied over an existing, longer file: exactly the stored bytes afterwards
     if rng.chance(1, 3) {
         let l1 = vlen(&vals, 1);
-        steps.push(json!({"k":"env","act":"write_file","path":"$O/longer","hex":"dd".repeat((l1 as usize + 1 + rng.below(40) as usize).min(6000))}));
+        // longer than the value, or exactly as long (and newer than the content file) with other bytes
+        let n = if rng.chance(1, 2) { l1 as usize + 1 + rng.below(40) as usize } else { l1 as usize };
+        steps.push(json!({"k":"env","act":"write_file","path":"$O/longer","hex":"dd".repeat(n.min(6000))}));
         let mut s = if rng.chance(1, 2) { json!({"k":"api","op":"copy","key":1,"to":"$O/longer"}) } else { json!({"k":"api","op":"copy","addr":c1,"to":"$O/longer"}) };
         set_flav(&mut s, flav(rng));
         steps.push(s);
@@ -1058,7 +1060,7 @@ pub fn gen_c12(rng: &mut Rng) -> Value {
                 // paths of the index that do not resolve (a loop, a file where a directory should be)
                 0 => json!({"k":"env","act":"symlink_loop","bucket":ki}),
                 1 => json!({"k":"env","act":"mkdir","bucket":ki}),
-                _ => json!({"k":"env","act":"write_file","path":"$C/index-v5/zz","hex":"00"}),
+                _ => json!({"k":"env","act":"write_file","path":*rng.pick(&["$C/index-v5/zz", "$C/stray-file", "$C/content-v2/stray"]),"hex":"00"}),
             },
             _ if rng.chance(1, 3) => json!({"k":"env","act":"append_record","bucket":ki,"rec":{"key":keys[ki].clone(),"integrity":*rng.pick(&["md5-1B2M2Y8AsgTpgAmY7PhCfg==", "garbage", "sha256"]),"time":1,"size":0,"metadata":null,"raw_metadata":null}}),
             _ => json!({"k":"env","act":"insert_line","bucket":ki,"boundary":rng.below(4),"hex": if rng.chance(1,2) { "fffec3".to_string() } else { hex::encode(garbage_line(rng)) }}),
